@@ -38,6 +38,7 @@ type SD struct {
 	Labels  map[string]string
 	Option  string // kind specific: role / file glob / dns name / url
 	Refresh string
+	Auth    Auth // credentials of the discovery client itself (kubernetes, http)
 }
 
 // Job is a scrape config.
@@ -314,6 +315,7 @@ func (w *wr) sd(depth int, s SD) {
 			w.sb.WriteString(strings.Repeat(" ", depth*max(w.st.Indent, 2)+2) + "namespaces:\n")
 			w.sb.WriteString(strings.Repeat(" ", depth*max(w.st.Indent, 2)+2+max(w.st.Indent, 2)) + "names: [" + s.Refresh + "]\n")
 		}
+		w.sdAuth(depth, s.Auth)
 	case "dns":
 		w.line(depth, "dns_sd_configs:")
 		w.item(depth, "names:")
@@ -323,6 +325,22 @@ func (w *wr) sd(depth int, s SD) {
 	case "http":
 		w.line(depth, "http_sd_configs:")
 		w.item(depth, "url: %s", w.q(s.Option))
+		w.sdAuth(depth, s.Auth)
+	}
+}
+
+// sdAuth renders the credentials of a discovery client as continuation lines of the list item.
+func (w *wr) sdAuth(depth int, a Auth) {
+	if a.Kind == "" || a.Kind == "none" {
+		return
+	}
+	tmp := &wr{st: w.st}
+	tmp.auth(0, a)
+	pad := strings.Repeat(" ", depth*max(w.st.Indent, 2)+2)
+	for _, ln := range strings.Split(strings.TrimRight(tmp.sb.String(), "\n"), "\n") {
+		if ln != "" {
+			w.sb.WriteString(pad + ln + "\n")
+		}
 	}
 }
 
@@ -717,11 +735,12 @@ func GenJob(r *core.Rng, name string, scrapeable bool) Job {
 	case 0:
 		j.SDs = []SD{{Kind: "file", Option: "/etc/prometheus/sd/" + name + "/*.json", Refresh: r.PickS("", "1m")}}
 	case 1:
-		j.SDs = []SD{{Kind: "kubernetes", Option: r.PickS("pod", "endpoints", "node", "service"), Refresh: r.PickS("", "default", "kube-system, monitoring")}}
+		j.SDs = []SD{{Kind: "kubernetes", Option: r.PickS("pod", "endpoints", "node", "service"), Refresh: r.PickS("", "default", "kube-system, monitoring"),
+			Auth: GenAuth(r, name+"sd", "none", "none", "basic", "bearer", "authorization")}}
 	case 2:
 		j.SDs = []SD{{Kind: "dns", Option: "_prom._tcp." + name + ".example"}}
 	case 3:
-		j.SDs = []SD{{Kind: "http", Option: "http://sd.example/" + name}}
+		j.SDs = []SD{{Kind: "http", Option: "http://sd.example/" + name, Auth: GenAuth(r, name+"sd", "none", "basic", "authorization", "oauth2")}}
 	default:
 		j.SDs = []SD{{Kind: "static", Targets: []string{"a." + name + ".example:9100", "b." + name + ".example"}, Labels: map[string]string{"env": r.PickS("prod", "dev", "stage")}}}
 		if r.Intn(3) == 0 {
